@@ -26,7 +26,7 @@ theorem runTryB_spec {runF : RunF} (HG : HypG runF) (HA : HypA runF) (b : Beh) (
 theorem goCallEnter_spec (n : Nat) (f : FnInfo) (s1 s3 : Vm) (np : Bool)
     (h : goCallEnter n f s1 = some (s3, np)) :
     ∃ c1 : Ctx, c1.regs = s1.regs ∧ c1.stash = s1.stash ∧ c1.privEnv = s1.privEnv ∧
-      s3.callStack = (if np then s1.callStack ++ [c1, ⟨none, [], none, 0, 0, -2, 0, 0⟩] else s1.callStack ++ [c1]) ∧
+      s3.callStack = (if np then s1.callStack ++ [c1, ⟨none, [], [], 0, 0, -2, 0, 0⟩] else s1.callStack ++ [c1]) ∧
       s3.tryStack = s1.tryStack ∧ s3.iterStack = s1.iterStack ∧ s3.refStack = s1.refStack ∧
       s3.interrupted = s1.interrupted ∧ s3.sb = s1.sp - n - 1 ∧ s3.sp = s1.sp := by
   unfold goCallEnter at h
@@ -48,7 +48,7 @@ theorem goCallEnter_spec (n : Nat) (f : FnInfo) (s1 s3 : Vm) (np : Bool)
 theorem goCallRet_spec (n : Nat) (s sF s1 s3 s4 : Vm) (np : Bool) (c1 : Ctx)
     (hsF : sF = { s with sp := s.sp + 2 + n }) (hs1 : s1 = pushTryFrame tryPanicMarker (-1) sF)
     (hc1 : c1.regs = s1.regs) (hst : c1.stash = s1.stash) (hpe : c1.privEnv = s1.privEnv)
-    (hcs : s3.callStack = (if np then s1.callStack ++ [c1, ⟨none, [], none, 0, 0, -2, 0, 0⟩] else s1.callStack ++ [c1]))
+    (hcs : s3.callStack = (if np then s1.callStack ++ [c1, ⟨none, [], [], 0, 0, -2, 0, 0⟩] else s1.callStack ++ [c1]))
     (hts : s3.tryStack = s1.tryStack) (his : s3.iterStack = s1.iterStack) (hrs : s3.refStack = s1.refStack)
     (hsb : s3.sb = s1.sp - n - 1) (h4 : Same s3 s4) :
     Same s (goCallRet np s4) ∧ (goCallRet np s4).interrupted = s4.interrupted := by
@@ -62,7 +62,7 @@ theorem goCallRet_spec (n : Nat) (s sF s1 s3 s4 : Vm) (np : Bool) (c1 : Ctx)
   cases np with
   | true =>
     simp only [if_true] at hcs ⊢
-    have e1 : ({ s4 with sp := s4.sb } : Vm).callStack = (s.callStack ++ [c1]) ++ [⟨none, [], none, 0, 0, -2, 0, 0⟩] := by
+    have e1 : ({ s4 with sp := s4.sb } : Vm).callStack = (s.callStack ++ [c1]) ++ [⟨none, [], [], 0, 0, -2, 0, 0⟩] := by
       simp [h4.cs, hcs, pushTryFrame]
     rw [popCtx_snoc _ _ _ e1]
     rw [popCtx_snoc _ s.callStack c1 (by simp)]
@@ -115,7 +115,7 @@ theorem goCall_good {runF : RunF} (HG : HypG runF) (HA : HypA runF) (n : Nat) (f
     have hI3 : Inv s3 := inv_of_ne (by rw [hcs]; split <;> simp)
     -- the body starts in an extension of the marker state
     have hB : Ext false s1 s3 := by
-      refine ⟨⟨(if np then [c1, ⟨none, [], none, 0, 0, -2, 0, 0⟩] else [c1]), ?_, ?_⟩, ⟨[], by simp [his]⟩,
+      refine ⟨⟨(if np then [c1, ⟨none, [], [], 0, 0, -2, 0, 0⟩] else [c1]), ?_, ?_⟩, ⟨[], by simp [his]⟩,
         ⟨[], by simp [hrs]⟩, ⟨[], by simp [hts]⟩⟩
       · rw [hcs]; split <;> simp
       · split <;> simpa [levelRegs] using hc1
